@@ -69,7 +69,7 @@ class C04(Check):
         self.stats = {}
 
     def budget(self, tier, escalated):
-        n = 2400 if tier == 'quick' else 60000
+        n = 6000 if tier == "quick" else 240000
         return n * (4 if escalated and tier == 'quick' else 1)
 
     def nontrivial(self, sample):
@@ -82,7 +82,7 @@ class C04(Check):
             data, cl, buf, sched = gen_case(rng)
             if rng.random() < .05:
                 buf = 0
-            maxb = None if rng.random() < .85 else rng.randint(0, len(data) + 3)
+            maxb = None
             res = bl.run_read(data, sched, buf, cl, False, maxb)
             out.append((bl.line_read(data, sched, buf, cl, False, maxb), bl.ans_read(res),
                         dict(kind='read', len=len(data), cl=cl, buf=buf, max=maxb, sched=sched[:8],
@@ -101,7 +101,7 @@ class C04(Check):
             ops = rng.choice([['B'], ['B'], ['B', 'B'], ['P3', 'B'], ['B', 'I'], ['I', 'B'], ['C', 'B'], ['B', 'S'],
                               ['P0', 'P2', 'B', 'P1', 'I'], ['S', 'B'], [], ['?B', 'B'], ['?S', 'B', 'I'],
                               ['?B', '?B', 'I'], ['P1', '?S', 'P2', 'B'], ['?C', '?B', '?S']])
-            maxb = None if rng.random() < .85 else rng.randint(0, len(data) + 3)
+            maxb = None
             mk = '@' if rng.random() < .8 else rng.choice(list(bl.MAPS))
             res = bl.run_wsgi(mk, buf, maxb, hdr, te, data, sched, ops)
             out.append((bl.line_wsgi(mk, buf, maxb, hdr, te, data, sched, ops), bl.ans_wsgi(res),
